@@ -30,6 +30,24 @@ Theorem C06_root_forms :
 Proof. exact root_forms. Qed.
 Print Assumptions C06_root_forms.
 
+(* the index variable of a two-variable for loop (port of markForIteratorIndexReadOnly): the first of at least two
+   iterator variables is read-only whatever the second one is — a name or the placeholder `_` — in every form *)
+Theorem C06_for_index :
+  forall (x : nat) (second : option nat) (rest : list (option nat)) (f : form),
+    allowed (env_of (for_syms (Some x :: second :: rest))) f (PIdent x) = false /\
+    allowed (env_of (for_syms (Some x :: second :: rest))) f (PParen (PIdent x)) = false.
+Proof. exact for_index_forms. Qed.
+Print Assumptions C06_for_index.
+
+(* and the other iterator variables stay mutable: `for x in e`, `for _, x in e`, `for y, x in e` *)
+Theorem C06_for_controls :
+  forall x y : nat,
+    env_of (for_syms [Some x]) x = Some (mkSym SVariable false RNone) /\
+    env_of (for_syms [None; Some x]) x = Some (mkSym SVariable false RNone) /\
+    (x <> y -> env_of (for_syms [Some y; Some x]) x = Some (mkSym SVariable false RNone)).
+Proof. exact for_controls. Qed.
+Print Assumptions C06_for_controls.
+
 (* no over-rejection: a target that is not frozen passes the mutability checks in every applicable form *)
 Theorem C06_mutable_accepted :
   forall (E : env) (f : form) (p : place),
